@@ -24,7 +24,8 @@ RULE = (
     "mixed values incl. unhashable members and duplicates, length 1..64) x weight vectors (as C03) in the forms weights / "
     "cum_weights / none; related-call comparisons (weights vs running totals; no weights vs [1]*n, [7]*n, [1000]*n); "
     "malformed combinations (both kinds, wrong length shorter / longer / empty, total 0, negative, inf, nan); random "
-    "branch 10^4 draws per configuration. Contracts run on every call. distinct_nontrivial = distinct configurations "
+    "branch 10^4 draws per configuration; aliasing histories (the same list objects re-used across calls and edited in place "
+    "between them, each call compared with the same call on fresh copies). Contracts run on every call. distinct_nontrivial = distinct configurations "
     "with n >= 2 and a zero weight, a cum_weights form, a malformed combination or a golden boundary id."
 )
 ASSUMPTIONS = [
@@ -209,6 +210,57 @@ def run(ctx):
                 continue
             ctx.count("malformed/" + name)
             ctx.count("configurations/ok")
+    # --- aliasing histories: the caller re-uses (and edits in place) the very objects it passed before ---------------
+    # Every call must be judged on the *current* contents of its arguments: the result has to equal the result of the
+    # same call made with fresh copies.
+    nhist = ctx.n(300, 30000)
+    for hi in range(nhist):
+        n = rnd.randint(1, 8)
+        w = [rnd.choice([0, 1, 2, 3, 0.5, 10]) for _ in range(n)]
+        if not any(w):
+            w[rnd.randrange(n)] = 1
+        pop = [f"e{j}" for j in range(n)]
+        cw = list(accumulate(w))
+        uid = rnd.choice(gold_ids) if rnd.random() < 0.3 else "h%d" % rnd.randrange(10**6)
+        steps = []
+        for step in range(rnd.randint(3, 8)):
+            op = rnd.choice(["edit-weight", "edit-weight", "swap-weights", "edit-population", "edit-cum", "resize", "none"])
+            if op == "edit-weight":
+                w[rnd.randrange(len(w))] = rnd.choice([0, 1, 5, 0.25, 100])
+            elif op == "swap-weights" and len(w) > 1:
+                i, j = rnd.sample(range(len(w)), 2)
+                w[i], w[j] = w[j], w[i]
+            elif op == "edit-population":
+                pop[rnd.randrange(len(pop))] = f"new{hi}_{step}"
+            elif op == "edit-cum":
+                k = rnd.randrange(len(cw))
+                for t in range(k, len(cw)):
+                    cw[t] += 1
+            elif op == "resize":
+                w.append(1)
+                pop.append(f"x{step}")
+                cw.append(cw[-1] + 1)
+            steps.append(op)
+            form = rnd.choice(["weights", "weights", "cum", "none"])
+            if form == "weights":
+                got = outcome(real, uid, pop, w)
+                want = outcome(real, uid, list(pop), list(w))
+            elif form == "cum":
+                got = outcome(real, uid, pop, cum_weights=cw)
+                want = outcome(real, uid, list(pop), cum_weights=list(cw))
+            else:
+                got = outcome(real, uid, pop)
+                want = outcome(real, uid, list(pop))
+            ctx.evaluated()
+            ctx.nontrivial("alias", hi, step)
+            same = (got[0] == want[0]) and (got[1] == want[1])
+            if not same:
+                ctx.violation("stale-result-for-reused-argument-object", dict(input_id=uid, steps=steps, form=form, weights_now=repr(w),
+                                                                             got=repr(got)[:100], with_fresh_copies=repr(want)[:100]),
+                              mechanism="C16/depends-on-argument-identity")
+                break
+        else:
+            ctx.count("aliasing-histories/ok")
     ctx.count("contract-evaluations/membership", COUNTS["post_member"])
     ctx.count("contract-evaluations/arguments-unchanged", COUNTS["post_unchanged"])
     if COUNTS["post_member"] == 0:
